@@ -441,11 +441,25 @@ func init() {
 				}
 			}
 		}
+		// reattached to a plugin launched by another process, crash after it has been up for a while (started now, collected below)
+		type agedRes struct{ proto, impl, pred string }
+		agedCh := make(chan agedRes, 2)
+		for _, proto := range []string{"netrpc", "grpc"} {
+			proto := proto
+			go func() {
+				impl, pred := runReattachAged(proto, 8500*time.Millisecond)
+				agedCh <- agedRes{proto, impl, pred}
+			}()
+		}
 		impls := make([]string, len(cases))
 		preds := make([]string, len(cases))
 		parallel(len(cases), 16, func(i int) { impls[i], preds[i] = runCrashCase(cases[i]) })
 		for i, c := range cases {
 			o.emit(c.line(), impls[i], preds[i])
+		}
+		for i := 0; i < 2; i++ {
+			a := <-agedCh
+			o.emit("!C03.reattach-aged proto="+a.proto+" age=8500", a.impl, a.pred)
 		}
 		o.note("C03: %d cells = crash points x protocols (x%d)", len(cases), reps)
 	})
